@@ -611,7 +611,68 @@ func c18(r *mon.Run) {
 			t.Nontrivial("anon:" + expr)
 			t.Count("anonymous / local struct type cases agreeing with the JSON form")
 		}}
-	r.Exec(eq, paths, oddw, ffw, fiw, nrw, mixw, zsw, emb, anon, safety, hostile)
+	// Go zero values: nil typed slices, nil maps, nil interfaces, zero structs, empty non-nil slices, pointers to
+	// empty structs, nil pointers to slices - under every function and every navigational form: no panic
+	type emptyS struct{}
+	type zv struct {
+		NilStrs   []string
+		EmptyStrs []string
+		NilFlts   []float64
+		NilGrid   [][]float64
+		NilIns    []docs.Inner
+		NilPIns   []*docs.Inner
+		NilMap    map[string]interface{}
+		EmptyMap  map[string]interface{}
+		TypedMap  map[string]string
+		NilIface  interface{}
+		Zero      docs.Leaf
+		PEmpty    *emptyS
+		Empty     emptyS
+		NilPtr    *docs.Leaf
+		PNilSlice *[]string
+		Arr       [2]string
+		Ifaces    []interface{}
+	}
+	zvNames := []string{"NilStrs", "EmptyStrs", "NilFlts", "NilGrid", "NilIns", "NilPIns", "NilMap", "EmptyMap", "TypedMap", "NilIface", "Zero", "PEmpty", "Empty", "NilPtr", "PNilSlice", "Arr", "Ifaces", "Zero.S", "NilPtr.S", "missing"}
+	zvForms := []string{"%s", "%s[0]", "%s[*]", "%s[]", "%s[?@]", "%s[1:]", "%s[::-1]", "%s.*", "%s.x", "%s[*].x", "[%s, %s]", "{k: %s}", "%s || 'd'", "%s && 'y'", "!%s", "%s == %s", "%s | [0]", "%s[*][0]", "length(%s)"}
+	zfns := ref.FunctionNames()
+	nzv := len(zvNames) * (len(zvForms) + len(zfns)*3)
+	zvw := mon.Workload{Name: "go-zero-values", N: nzv,
+		Do: func(i int, t *mon.Tally) {
+			name := zvNames[i%len(zvNames)]
+			k := i / len(zvNames)
+			var expr string
+			if k < len(zvForms) {
+				expr = strings.ReplaceAll(zvForms[k], "%s", name)
+			} else {
+				k -= len(zvForms)
+				fn := zfns[k/3]
+				switch k % 3 {
+				case 0:
+					expr = fn + "(" + name + ")"
+				case 1:
+					expr = fn + "(" + name + ", " + name + ")"
+				default:
+					expr = fn + "(" + name + ", &@)"
+					if fn == "map" {
+						expr = "map(&@, " + name + ")"
+					}
+				}
+			}
+			mk := func() interface{} {
+				return &zv{EmptyStrs: []string{}, EmptyMap: map[string]interface{}{}, TypedMap: map[string]string{"a": "b"}, PEmpty: &emptyS{}, Ifaces: []interface{}{nil, (*docs.Leaf)(nil), []string(nil), emptyS{}}}
+			}
+			t.Eval()
+			for q, o := range []mon.Observed{apiSearch(expr, mk()), apiCompiledSearch(expr, *mk().(*zv))} {
+				if o.Panicked {
+					r.Violate(&mon.Violation{Workload: "go-zero-values", Index: i, API: []string{"Search", "Compile+Search"}[q], Expr: expr, DocDesc: "a struct whose fields hold Go zero values (nil typed slices, nil maps, nil interfaces, zero structs, pointers to empty structs)",
+						Expected: "a value or an error, never a panic", Observed: o.String(), Detail: o.Stack, Class: "go-zero-values: panic"})
+					return
+				}
+			}
+			t.Nontrivial("zv:" + expr)
+		}}
+	r.Exec(eq, paths, oddw, ffw, fiw, nrw, mixw, zsw, emb, anon, zvw, safety, hostile)
 }
 
 func pickKey(operand string) string {
